@@ -138,8 +138,9 @@ class Prop(BaseProp):
         if ty == "str":
             for s in setters:
                 vals[s] = f"val_{s}_{opt}" if opt != "module_path_separator" else {"cli": "::", "sfile": "/", "user": "-"}[s]
-            if opt == "prefix" and rng.random() < 0.3:
-                vals[winner] = ""          # an explicitly given empty string is a value like any other
+            if opt == "prefix" and rng.random() < 0.5:
+                # an explicitly given empty string is a value like any other; so is one that ends in the separator or in blanks
+                vals[winner] = rng.choice(["", "", "Ends.", "dots..", "trailing blank ", ".lead"])
             return vals, vals[winner]
         if ty == "list":
             for s in setters:
